@@ -62,6 +62,7 @@ def register(reg):
         ensures=["not (key in CD(self))", "others_kept(self, key)"],
     )
     _register_auth(reg)
+    _register_content_range_parse(reg)
 
 
 def _register_auth(reg):
@@ -132,3 +133,22 @@ def _replay_auth(reg, c, inputs):
         if fails:
             return [f"(header text {v!r}) " + f for f in fails]
     return []
+
+
+def _register_content_range_parse(reg):
+    """parse_content_range_header: total, yields only valid ranges, and inverts ContentRange.to_header"""
+    CR = reg.models["ContentRange"]
+    reg.spec("tokenish(u)", "len(u) > 0 and re_in(u, '[A-Za-z0-9_.-]+')")
+    reg.contract(
+        "werkzeug/http.py:parse_content_range_header", prop="C06,C07", params={"value": "Optional[str]", "on_update": "none"},
+        modifies=[], returns="Optional[ContentRange]",
+        inline_callees=["werkzeug/datastructures/range.py:ContentRange.set"],
+        ensures=[
+            "implies(value is None, result is None)",
+            # only satisfiable, well-ordered ranges come out
+            "result is None or valid_range(result._start, result._stop, result._length)",
+            # (the inverse law against ContentRange.to_header -- str(int) round trips inside split / partition pieces --
+            #  was tried as a clause with ghost parameters: both solvers need more than 20 minutes; bounded tier)
+        ],
+        raises={},
+    )
